@@ -788,31 +788,36 @@ PROPS = {
         assumptions=[],
     ),
     "C01": dict(
-        suites=["c01"],
+        retry_on_failure=True,
+        suites=["c01", "c01h3"],
         judge=judge_c01,
         level="proof",
-        rule='sessions over the real Http1Codec (1 request) and Http2Codec (1-3, thorough 1-5 concurrent streams) on in-memory transports through the real Core::on_tunnel_request / Tunnel / HttpDownstream with a scripted forwarder injected at Core::make_forwarder: authenticator {none, registry of 2 clients, scripted accepting one token and one SNI}, SNI credentials {none, accepted, rejected}, methods {CONNECT, GET, POST, OPTIONS, HEAD}, 19 authorities (reserved names, look-alikes differing by case / suffix / port, literals v4/v6 with and without port, names with and without port, bad port), 13 Proxy-Authorization forms (absent, two valid, wrong password / user, Bearer, lower-case scheme, no space, bad base64, non-UTF-8, empty, empty token, trailing space), 13 connect outcomes (ok, refused, unreachable, timed out, 310, 311, resolver failure, EMFILE, other, upstream auth failure, completion at D-1 / D / D+1 ms under the paused clock), UDP/ICMP multiplexer failures; per request status, X-Warning code, challenge, X-Adguard-Vpn-Error and the multiset of forwarder calls are compared with the Lean session model',
+        rule='sessions over the real Http1Codec (1 request) and Http2Codec (1-3, thorough 1-5 concurrent streams) on in-memory transports through the real Core::on_tunnel_request / Tunnel / HttpDownstream with a scripted forwarder injected at Core::make_forwarder: authenticator {none, registry of 2 clients, scripted accepting one token and one SNI}, SNI credentials {none, accepted, rejected}, methods {CONNECT, GET, POST, OPTIONS, HEAD}, 19 authorities (reserved names, look-alikes differing by case / suffix / port, literals v4/v6 with and without port, names with and without port, bad port), 13 Proxy-Authorization forms (absent, two valid, wrong password / user, Bearer, lower-case scheme, no space, bad base64, non-UTF-8, empty, empty token, trailing space), 13 connect outcomes (ok, refused, unreachable, timed out, 310, 311, resolver failure, EMFILE, other, upstream auth failure, completion at D-1 / D / D+1 ms under the paused clock), UDP/ICMP multiplexer failures; per request status, X-Warning code, challenge, X-Adguard-Vpn-Error and the multiset of forwarder calls are compared with the Lean session model'
+             ' HTTP/3 part (suite c01h3, wall clock): 150 (thorough 1200) sessions of 1-3 concurrent request streams through the real Core::listen on a loopback UDP port (QUIC multiplexer, HTTP/3 codec, Tunnel, HttpDownstream; quiche client of the harness; SNI credentials travel as <credentials>.localhost in the QUIC ClientHello), same authenticators, authorities, Proxy-Authorization forms and immediate connect outcomes, same query format and model',
         explanation="theorems gate_sound, policy_authenticated_only_if_accepted, registry_accepts_iff, reject_is_407_no_egress, "
                     "egress_only_after_pass, registry_no_egress_without_credentials, decision_history_independent about TT/Model/Dispatch.lean",
-        trusted=["HTTP/3: the same Tunnel / HttpDownstream code behind Http3Codec (quiche), not driven",
+        trusted=["HTTP/3 is driven live (a sample of sessions over real QUIC on loopback): quiche on both sides is trusted, and timing there is the wall clock",
                  "header parsing by httparse / h2 / http crates (first Proxy-Authorization value, OWS trimming on HTTP/1.1)",
                  "a scripted authenticator stands for 'the configured authenticator'; the registry is the real RegistryBasedAuthenticator"],
         assumptions=[],
     ),
     "C10": dict(
-        suites=["c10"],
+        retry_on_failure=True,
+        suites=["c10", "c10h3"],
         judge=judge_c10,
         level="proof",
         rule='sessions over the real Http1Codec (1 request) and Http2Codec (1-3, thorough 1-5 concurrent streams) on in-memory transports through the real Core::on_tunnel_request / Tunnel / HttpDownstream with a scripted forwarder injected at Core::make_forwarder: authenticator {none, registry of 2 clients, scripted accepting one token and one SNI}, SNI credentials {none, accepted, rejected}, methods {CONNECT, GET, POST, OPTIONS, HEAD}, 19 authorities (reserved names, look-alikes differing by case / suffix / port, literals v4/v6 with and without port, names with and without port, bad port), 13 Proxy-Authorization forms (absent, two valid, wrong password / user, Bearer, lower-case scheme, no space, bad base64, non-UTF-8, empty, empty token, trailing space), 13 connect outcomes (ok, refused, unreachable, timed out, 310, 311, resolver failure, EMFILE, other, upstream auth failure, completion at D-1 / D / D+1 ms under the paused clock), UDP/ICMP multiplexer failures; per request status, X-Warning code, challenge, X-Adguard-Vpn-Error and the multiset of forwarder calls are compared with the Lean session model'
              " Plus 112 CONNECTs through the real direct forwarder (outbound connects stubbed): 19 address literals (loopback other than "
              "127.0.0.1, private, link-local, CGNAT edges, ULA, documentation, IPv4-mapped, multicast, global) and 9 scripted resolver "
              "answers x both policies x IPv6 on/off, refusal code and X-Adguard-Vpn-Error compared with the C03 decision carried "
-             "through the generated tables",
+             "through the generated tables."
+             " HTTP/3 part (suite c10h3, wall clock): 150 (thorough 1200) sessions of 1-3 concurrent request streams through the real Core::listen on a loopback UDP port (QUIC multiplexer, HTTP/3 codec, Tunnel, HttpDownstream; quiche client of the harness; SNI credentials travel as <credentials>.localhost in the QUIC ClientHello), same authenticators, authorities, Proxy-Authorization forms and immediate connect outcomes, same query format and model",
         explanation="theorems exactly_one_final, codes_documented, outcome_codes, connect_result, reserved_never_resolved, "
                     "lookalikes_are_hosts, connect_without_port_refused, health_and_mux_accepted about TT/Model/Dispatch.lean with "
                     "statusOf / warnOf / reserved names regenerated from http_downstream.rs on every run",
         trusted=["authority parsing (http::uri::Authority::port_u16 / host, SocketAddr::from_str): the parsed view is a model input",
-                 "HTTP/3 not driven; non-CONNECT requests that connect successfully are answered by the origin (C17)"],
+                 "HTTP/3 is driven live with immediate connect outcomes only (no establishment-timeout boundary cases: wall clock); "
+                 "non-CONNECT requests that connect successfully are answered by the origin (C17)"],
         assumptions=["_icmp with ICMP forwarding not configured, and a multiplexer that fails to be created, are answered 200 and then the "
                      "stream is dropped: the model follows the code; the property only fixes the accepted case"],
     ),
